@@ -3,6 +3,7 @@ From Coq Require Import List ZArith Bool Lia Permutation.
 From RecordUpdate Require Import RecordUpdate.
 From GB Require Import Model.Allowance Model.Batcher Proofs.Tactics Proofs.C01Inv Proofs.BatcherLocal
   Proofs.BatcherLocal2 Proofs.BatcherInv2 Proofs.BatcherInv3.
+From GB Require Import Gen.Facts.
 Import ListNotations.
 Open Scope Z_scope.
 (* Pause() acts only in the started phase; while paused, before Start or after shutdown it changes nothing (so it cannot extend a pause) *)
@@ -51,3 +52,7 @@ Theorem C13_default_pause_time : forall c, c_pause c <= 0 -> eff_pause c = 500 *
 Proof. intros c H. unfold eff_pause, dflt. apply Z.leb_le in H. now rewrite H. Qed.
 Print Assumptions C13_default_pause_time.
 
+
+Theorem C13_source_constants :
+  V1_default_pauseTime = default_pause /\ V2_default_pauseTime = default_pause.
+Proof. split; reflexivity. Qed.
